@@ -103,6 +103,10 @@ def run_map(case):
         script = None
     ids = {id(s): k for k, s in enumerate(pool)}
     lines, obs, fails = ["case"], [], []
+    # the same sources may also sit in ANOTHER event map (in another order): that must not show here
+    other = event.EventMap()
+    orng = lib.rng_for(case["seed"], case["idx"], 1344)
+    share_other = script is None and orng.random() < 0.3
     first_add = []
     frozen = False
     stats = {"ops": 0, "repeats": 0, "refused": 0}
@@ -112,6 +116,12 @@ def run_map(case):
         else:
             op, karg = rnd.choice(["add", "add", "add", "index", "index", "size", "sources", "freeze"]), None
         stats["ops"] += 1
+        if share_other and orng.random() < 0.4:
+            try:
+                other.add(pool[orng.randrange(len(pool))])
+                stats["adds_to_another_map"] = stats.get("adds_to_another_map", 0) + 1
+            except ValueError:
+                pass
         if op == "add":
             k = rnd.randrange(len(pool)) if karg is None else karg
             lines.append(f"add {k}")
